@@ -48,6 +48,9 @@ def parseAction (f : Str) : Option Action :=
     match n, args with
     | "ok", [v] => some (.ok (optJV v))
     | "resource", [rid] => some (.resource (decS rid))
+    -- `Error(nil)`: `ToError(nil)` dereferences the nil error; the handler panics with that runtime
+    -- error and the request is answered like any other panic with an `error` value
+    | "error", [[78]] => some (.panic (.err (.go (str "runtime error: invalid memory address or nil pointer dereference"))))
     | "error", a => (parseErrV a).map .error
     | "notFound", [] => some .notFound
     | "methodNotFound", [] => some .methodNotFound
